@@ -251,6 +251,12 @@ func Run(o Options) int {
 		perObl = append(perObl, map[string]any{"name": g.Name, "kind": g.Kind, "tag": g.Tag, "instances": g.Instances, "result": g.Result, "backend": g.Backend, "ms": g.Ms})
 		if o.Verbose {
 			fmt.Printf("  %-10s %s [%s] %dms x%d %s\n", g.Result, g.Name, g.Backend, g.Ms, g.Instances, g.Detail)
+			if g.Model != "" && os.Getenv("GOVC_MODEL") != "" {
+				fmt.Println("      clause:", g.Text)
+				for _, l := range strings.Split(strings.TrimSpace(g.Model), "\n") {
+					fmt.Println("      |", l)
+				}
+			}
 		}
 	}
 	os.MkdirAll(filepath.Join(o.Replays, o.Prop), 0o755)
